@@ -3,7 +3,7 @@ from hypothesis import strategies as st
 
 from .. import gen
 
-KINDS = ['add', 'add', 'add', 'add', 'add_from', 'path', 'path', 'star', 'cycle', 'cycle', 'recip']
+KINDS = ['add', 'add', 'add', 'add', 'add_from', 'path', 'star', 'cycle', 'recip', 'tpath', 'tpath', 'tpath']
 
 # (u index, v selector, start selector, end selector); selectors are resolved against the model
 QUERY = st.tuples(st.integers(0, 7), st.sampled_from(['none', 'none', 'none', 'node', 'node', 'self']), st.integers(0, 7),
